@@ -151,6 +151,18 @@ CLAIMED = {
                   "facts and are assumed.",
              note="Assumed: H5Group.copy (H5Ocopy + visititems), uuid4. The public create_*(copy_from=...) wrappers, "
                   "File.create_block's copy branch and copy_section are not under contract (thin delegation).", ref="7 C20"),
+ "C02": dict(text="Partial, as representation invariant + inverse pairs over the abstract store: deductive proof, per attribute accessor "
+                  "under contract (entity type / definition, array label / unit / expansion origin / polynomial coefficients, section "
+                  "reference / repository, tag position / extent, multi-tag positions / extents, sampled-dimension interval / "
+                  "offset / unit, dimension label, property name / unit / definition, timestamps, file version / format / id), that "
+                  "the setter writes the (normalised) value into the store under exactly the key the getter reads - nothing is "
+                  "cached on the Python object, nothing else is written - so that every observation is a function of the HDF5 "
+                  "content; that a new Section handle carries no cached parent; that the sweeper unlinks every deleted member "
+                  "(deleted things stay deleted); and that close() flushes. The step from there to the property - HDF5 reproduces "
+                  "its content after close and reopen - is an assumption about libhdf5, not a proved clause.",
+             note="Assumed: HDF5 persistence across close/reopen, h5py attribute type round trip. Not covered: stale-handle behaviour "
+                  "(an H5Group caches the bound h5py object; whole-history, multi-handle statements need ghost sets of live "
+                  "handles), data-frame and feature accessors, containers' creation paths.", ref="7 C02"),
 }
 NA_REASON = "check not built yet in this round (design in DESIGN.md section 7); will be claimed once its contracts discharge"
 checks, na = [], []
